@@ -1,5 +1,6 @@
 """C04 - primary keys.  Spec: GffDB!DeriveId/TryItems/AutoId/Collide(create_unique); MC_DB04; Gen_DB for random inputs."""
 import json
+import os
 
 from .. import core
 from ..core import enc, dec
@@ -107,6 +108,59 @@ def random_hist(rng, n):
     return hist
 
 
+def counter_histories(rng, n):
+    """create on a file, update with id-less features of a NEW featuretype, close and reopen, update again: numbering continues"""
+    hist = []
+    specs = [{"kind": "default"}, {"kind": "list", "items": [{"t": "attr", "k": enc("ID")}]},
+             {"kind": "dict", "map": [[enc("gene"), [{"t": "attr", "k": enc("ID")}]]]}, {"kind": "list", "items": [{"t": "call", "fn": "auto_seqid"}]}]
+    for _ in range(n):
+        spec = rng.choice(specs)
+        cfg = dict(G.DEFAULT_CFG, idspec=spec, strategy="create_unique")
+        init = [G.feat("gene", 1, 9, [("ID", ["g%d" % i])] if rng.random() < 0.6 else []) for i in range(rng.randint(1, 3))]
+        steps = []
+        for k in range(rng.randint(2, 4)):
+            ft = rng.choice(["exon", "exon", "CDS", "gene"])
+            batch = [G.feat(ft, 10 * k + 1, 10 * k + 5, [("ID", ["e%d_%d" % (k, j)])] if rng.random() < 0.3 else [], seqid=rng.choice(["chr1", "chr2"]))
+                     for j in range(rng.randint(1, 3))]
+            steps.append({"op": "update", "feats": batch, "cfg": cfg, "backup": False})
+            if rng.random() < 0.6:
+                steps.append({"op": "reopen"})
+        hist.append({"init": {"feats": init, "cfg": cfg, "dirs": []}, "steps": steps, "rel": False})
+    return hist
+
+
+def run_history(args):
+    """execute one history on a real file database; returns the projections after create and after every step"""
+    import gffutils
+    h, path = args
+    out = []
+    try:
+        with dbio.quiet():
+            db = gffutils.create_db([G.real_feature(f) for f in h["init"]["feats"]], path, force=True, **G.real_kwargs(h["init"]["cfg"]))
+        out.append({"st": "ok", "db": dbio.proj_file(path)})
+        for s in h["steps"]:
+            if s["op"] == "reopen":
+                db.conn.close()
+                db = gffutils.FeatureDB(path)
+                out.append({"st": "ok", "db": dbio.proj_file(path)})
+                continue
+            try:
+                with dbio.quiet():
+                    kw = G.real_kwargs(s["cfg"])
+                    db.update([G.real_feature(f) for f in s["feats"]], make_backup=False, **kw)
+                out.append({"st": "ok", "db": dbio.proj_file(path)})
+            except Exception as e:  # noqa
+                out.append({"st": "raise:" + type(e).__name__, "db": None})
+                break
+        db.conn.close()
+    except Exception as e:  # noqa
+        out.append({"st": "raise:" + type(e).__name__, "db": None})
+    finally:
+        if os.path.exists(path):
+            os.unlink(path)
+    return out
+
+
 def nontrivial(c):
     sp = c["cfg"]["idspec"]
     default = sp["kind"] == "list" and len(sp["items"]) == 1 and sp["items"][0] == {"t": "attr", "k": enc("ID")}
@@ -155,12 +209,40 @@ def run(ctx):
         if os.path.exists(ctx.path("c04.db")):
             os.unlink(ctx.path("c04.db"))
     ctx.traces += len(hist)
+    # numbering across updates and reopenings (file databases)
+    ch = counter_histories(ctx.rng, 600 if thorough else 120)
+    exp = G.model(ctx, ch, label="auto-numbering across update / reopen")
+    obs = core.pmap(run_history, [(h, ctx.path("c04h_%d.db" % k)) for k, h in enumerate(ch)])
+    for h, e, o in zip(ch, exp, obs):
+        case = {"init": h["init"], "steps": h["steps"], "lines": [G.gff3_line(f) for f in h["init"]["feats"]] +
+                ["# %s %s" % (s["op"], [G.gff3_line(f) for f in s.get("feats", [])]) for s in h["steps"]]}
+        for k, (t, got) in enumerate(zip(e["traj"], o)):
+            if got["st"] != "ok":
+                if t["st"] == "ok":
+                    ctx.violation(case, "step%d:%s" % (k, got["st"]), None)
+                break
+            bad = G.diff_clause(G.canon_snap(t["db"]), G.canon_snap(got["db"]))
+            if bad:
+                ctx.violation(case, "step%d:%s" % (k, bad), {"expected_keys": [dec(f["id"]) for f in t["db"]["feats"]], "observed_keys": [dec(f["id"]) for f in got["db"]["feats"]]})
+                break
+        ctx.count(("hist", h["init"]["feats"], h["steps"]), True)
+    ctx.traces += len(ch)
     ctx.assumptions += ["inputs are Feature objects (no text parsing involved); ':field:' specs are exercised with text columns",
                         "callables are a fixed menu mirrored by Python functions (none, const, autoincrement:seqid, Name attribute, type:start)"]
 
 
 def replay(ctx, rec):
     c = rec["case"]
+    if "steps" in c:
+        h = {"init": c["init"], "steps": c["steps"], "rel": False}
+        e = G.model(ctx, [h], workers=1)[0]
+        o = run_history((h, ctx.path("replay.db")))
+        for t, got in zip(e["traj"], o):
+            if got["st"] != "ok":
+                return t["st"] == "ok"
+            if G.diff_clause(G.canon_snap(t["db"]), G.canon_snap(got["db"])):
+                return True
+        return False
     if "feats" not in c:
         return True
     hist = [{"init": {"feats": c["feats"], "cfg": c["cfg"], "dirs": []}, "steps": [], "rel": False}]
